@@ -1,94 +1,274 @@
-//! `iter <k> <source> <history>` (C18): runs a call history on one of the library's iterators and,
-//! beside it, on a VecDeque holding the iterator's items; answers every call's result and whether
-//! the two agreed.  history = comma list of next | back | nth:K | len | hint | count | clone
-//! (`clone` = continue on a clone, dropping the original).
+//! `iter <k> <source> <history> [want_n=<n>]` (C18): runs a call history on one of the library's iterators and,
+//! beside it, on a VecDeque holding the iterator's items; answers every call's result and whether the two agreed.
+//!
+//! history = comma list of
+//!   next | back | nth:K | len | hint | count
+//!   clone   continue on a clone, dropping the original
+//!   fork    clone the current copy and keep BOTH alive (each with its own deque)
+//!   sw      switch to the next live copy (round robin): calls interleave between the copies
+//!
+//! answer: `ok n=<N> deque_same=<b> fused=<b> [imglen_same=<b>] [layout_same=<b>] [twin_same=<b>] [want_n_same=<b>]
+//!          copies=<c> ids=<items> results=[…]`
+//!   n            number of items of the fresh iterator
+//!   deque_same   every call on every live copy answered what the same call on that copy's deque answers
+//!   fused        every copy, drained, keeps answering None (and len 0)
+//!   imglen_same  `Iter::image().len()` (imports / debug iterators) = items left, after every call
+//!   layout_same  the items are the records the directory's header announces, at their places (resource
+//!                directories, section table): built from the header, not from the iterator
+//!   twin_same    wrapper sources (`w…`, k = wf | wv): the iterator of the WRAPPER and the iterator of the
+//!                format-specific view inside it answered the same item / the same RAW size hint / the same
+//!                count at every history position
+//!   ids          the canonical items in order, `;` separated (`#<fnv>` of that text when longer than 600 bytes):
+//!                the item notation of the modules' `dump` operations, compared with them by class C18
+//!   results      per call: `len=N`, `hint=lo:hi` (RAW size hint, `-` = None), `count=N`, `fork`, `sw`, `cloned`,
+//!                else the first 6 digits of the FNV digest of the canonical item (`None` = exhausted)
+use crate::ops_img::tref;
+use crate::ops_walk::{imp_s, Canon};
 use crate::util::*;
 use crate::State;
+use pelite::pe64::exports::Export;
+use pelite::pe64::imports::Import;
+use pelite::util::CStr;
+use pelite::Wrap;
+use std::cell::Cell;
 use std::collections::VecDeque;
-use std::fmt::Debug;
+use std::rc::Rc;
 
-fn items_of<I: Iterator + Clone>(it: &I) -> Option<VecDeque<String>> where I::Item: Debug {
-	let mut v = VecDeque::new();
-	for x in it.clone() { v.push_back(format!("{:?}", x)); if v.len() > 20000 { return None; } }
-	Some(v)
+// ---- canonical items (the notation of the dump operations: ops_imports.rs, ops_exports.rs, ops_dirs.rs, ops_json.rs)
+/// the iterators that expose what is left of their directory: `Iter::image().len()`
+trait ImageLen { fn image_len(&self) -> usize; }
+macro_rules! canon_items {
+	($m:ident) => {
+		impl<'a, P: pelite::$m::Pe<'a>> Canon for pelite::$m::imports::Desc<'a, P> { fn canon(&self, g: &Guarded) -> String { tref(g, self.image(), 20) } }
+		impl<'a, P: pelite::$m::Pe<'a>> Canon for pelite::$m::debug::Dir<'a, P> { fn canon(&self, g: &Guarded) -> String { tref(g, self.image(), 28) } }
+		impl<'a, P: pelite::$m::Pe<'a>> Canon for pelite::$m::exception::Function<'a, P> { fn canon(&self, g: &Guarded) -> String { tref(g, self.image(), 12) } }
+		impl<'a, P: pelite::$m::Pe<'a>> ImageLen for pelite::$m::imports::Iter<'a, P> { fn image_len(&self) -> usize { self.image().len() } }
+		impl<'a, P: pelite::$m::Pe<'a>> ImageLen for pelite::$m::debug::Iter<'a, P> { fn image_len(&self) -> usize { self.image().len() } }
+	};
 }
+canon_items!(pe32);
+canon_items!(pe64);
+fn iexp(g: &Guarded, r: &pelite::Result<Export>) -> String {
+	match r {
+		Ok(Export::Symbol(rva)) => format!("Symbol({})@{}", **rva, tref(g, *rva as *const u32, 4)),
+		Ok(Export::Forward(s)) => { let b = s.c_str(); format!("Forward({})@{}", hex(s.as_ref()), g.rf(b.as_ptr(), b.len())) },
+		Err(e) => format!("err:{}", errname(*e)),
+	}
+}
+fn ecstr(g: &Guarded, r: &pelite::Result<&CStr>) -> String {
+	match r { Ok(s) => { let b = s.c_str(); format!("{}@{}", hex(s.as_ref()), g.rf(b.as_ptr(), b.len())) }, Err(e) => format!("err:{}", errname(*e)) }
+}
+impl<'a> Canon for pelite::Result<Export<'a>> { fn canon(&self, g: &Guarded) -> String { iexp(g, self) } }
+impl<'a> Canon for (pelite::Result<&'a CStr>, pelite::Result<Export<'a>>) { fn canon(&self, g: &Guarded) -> String { format!("({},{})", ecstr(g, &self.0), iexp(g, &self.1)) } }
+impl<'a> Canon for (pelite::Result<&'a CStr>, usize) { fn canon(&self, g: &Guarded) -> String { format!("({},{})", ecstr(g, &self.0), self.1) } }
+impl<'a> Canon for pelite::Result<Import<'a>> { fn canon(&self, g: &Guarded) -> String { imp_s(g, *self) } }
+impl Canon for pelite::rich_structure::RichRecord { fn canon(&self, _g: &Guarded) -> String { format!("{}:{}:{}", self.product, self.build, self.count) } }
+impl<'a> Canon for pelite::base_relocs::Block<'a> {
+	fn canon(&self, g: &Guarded) -> String { let im = self.image(); let w = self.words(); format!("{}@{}+{}/{}", im.VirtualAddress, g.rf(im as *const _ as *const u8, 8), im.SizeOfBlock, g.rf(w.as_ptr() as *const u8, w.len() * 2)) }
+}
+impl<'a> Canon for pelite::pe64::debug::PgoItem<'a> { fn canon(&self, g: &Guarded) -> String { let b = self.name.c_str(); format!("{}:{}:{}", self.rva, self.size, g.rf(b.as_ptr(), b.len())) } }
+impl<'a> Canon for pelite::resources::DirectoryEntry<'a> { fn canon(&self, g: &Guarded) -> String { tref(g, self.image(), 8) } }
+impl<'a> Canon for &'a pelite::pe64::headers::SectionHeader { fn canon(&self, g: &Guarded) -> String { tref(g, *self as *const pelite::pe64::headers::SectionHeader, 40) } }
+
+// ---- what an iterator type offers beyond `Iterator + Clone`
+struct Caps<'c, I: Iterator> {
+	back: Option<&'c dyn Fn(&mut I) -> Option<I::Item>>,
+	len: Option<&'c dyn Fn(&I) -> usize>,
+	/// `Iter::image().len()`
+	image_len: Option<&'c dyn Fn(&I) -> usize>,
+	/// the items as the directory's header announces them
+	layout: Option<Vec<String>>,
+	/// set to false by a `Pair` whose two sides disagreed
+	twin: Option<Rc<Cell<bool>>>,
+}
+fn fwd<'c, I: Iterator>() -> Caps<'c, I> { Caps { back: None, len: None, image_len: None, layout: None, twin: None } }
+fn de<'c, I: DoubleEndedIterator + ExactSizeIterator>() -> Caps<'c, I> {
+	Caps { back: Some(&|it: &mut I| it.next_back()), len: Some(&|it: &I| it.len()), image_len: None, layout: None, twin: None }
+}
+
+fn de_img<'c, I: DoubleEndedIterator + ExactSizeIterator + ImageLen>() -> Caps<'c, I> { let mut c = de::<I>(); c.image_len = Some(&|it: &I| it.image_len()); c }
+
 fn opt(o: Option<String>) -> String { o.unwrap_or_else(|| "None".to_string()) }
+fn hint_s(h: (usize, Option<usize>)) -> String { format!("hint={}:{}", h.0, h.1.map_or("-".to_string(), |x| x.to_string())) }
 
-/// forward-only iterators (no ExactSize, no DoubleEnded)
-fn run_fwd<I: Iterator + Clone>(mut it: I, hist: &str) -> String where I::Item: Debug {
-	let mut dq = match items_of(&it) { Some(d) => d, None => return "toolong".to_string() };
-	let n0 = dq.len();
+/// the history on the iterator and on the deque(s) of its items
+fn run<I: Iterator + Clone, F: Fn(&I::Item) -> String>(it: I, f: F, caps: Caps<I>, hist: &str, want_n: Option<usize>) -> String {
+	let mut dq0 = VecDeque::new();
+	for x in it.clone() { dq0.push_back(f(&x)); if dq0.len() > 20000 { return "toolong".to_string(); } }
+	let n0 = dq0.len();
+	let ids = { let t = dq0.iter().cloned().collect::<Vec<_>>().join(";"); if t.is_empty() { "-".to_string() } else if t.len() > 600 { format!("#{}", digest(t.as_bytes())) } else { t } };
+	let layout_same = caps.layout.as_ref().map(|l| l.iter().eq(dq0.iter()));
+	let mut copies: Vec<(I, VecDeque<String>)> = vec![(it, dq0)];
+	let mut cur = 0usize;
 	let mut res = Vec::new();
-	let mut same = true;
+	let (mut same, mut imglen_same) = (true, true);
 	for h in hist.split(',') {
+		let (it, dq) = { let c = &mut copies[cur]; (&mut c.0, &mut c.1) };
+		let item = |x: Option<I::Item>| opt(x.map(|x| f(&x)));
+		let mut raw = None;
 		let (a, b) = match h {
-			"next" => (opt(it.next().map(|x| format!("{:?}", x))), opt(dq.pop_front())),
-			"count" => (it.clone().count().to_string(), dq.len().to_string()),
-			"hint" => { let (lo, hi) = it.size_hint(); let ok = lo <= dq.len() && hi.map_or(true, |h| dq.len() <= h); (format!("hint:{}", ok), "hint:true".to_string()) },
-			"clone" => { it = it.clone(); ("cloned".to_string(), "cloned".to_string()) },
-			_ if h.starts_with("nth:") => { let k = num(&h[4..]) as usize; let a = opt(it.nth(k).map(|x| format!("{:?}", x))); for _ in 0..std::cmp::min(k, dq.len()) { dq.pop_front(); } (a, opt(dq.pop_front())) },
+			"next" => (item(it.next()), opt(dq.pop_front())),
+			"back" => match caps.back { Some(bk) => (item(bk(it)), opt(dq.pop_back())), None => ("skip".to_string(), "skip".to_string()) },
+			"len" => match caps.len { Some(ln) => { let a = format!("len={}", ln(it)); raw = Some(a.clone()); (a, format!("len={}", dq.len())) }, None => ("skip".to_string(), "skip".to_string()) },
+			"count" => { let a = format!("count={}", it.clone().count()); raw = Some(a.clone()); (a, format!("count={}", dq.len())) },
+			"hint" => {
+				let hnt = it.size_hint();
+				raw = Some(hint_s(hnt));
+				// exact-size iterators: the hint IS the number of items left; the others: a valid bracket
+				if caps.len.is_some() { (hint_s(hnt), hint_s((dq.len(), Some(dq.len())))) }
+				else { ((hnt.0 <= dq.len() && hnt.1.map_or(true, |x| dq.len() <= x)).to_string(), "true".to_string()) }
+			},
+			"clone" => { let c = it.clone(); *it = c; raw = Some("cloned".to_string()); ("cloned".to_string(), "cloned".to_string()) },
+			"fork" => { let c = (it.clone(), dq.clone()); if copies.len() < 8 { copies.push(c); } raw = Some("fork".to_string()); ("fork".to_string(), "fork".to_string()) },
+			"sw" => { cur = (cur + 1) % copies.len(); raw = Some("sw".to_string()); ("sw".to_string(), "sw".to_string()) },
+			_ if h.starts_with("nth:") => { let k = num(&h[4..]) as usize; let a = item(it.nth(k)); for _ in 0..std::cmp::min(k, dq.len()) { dq.pop_front(); } (a, opt(dq.pop_front())) },
 			_ => ("skip".to_string(), "skip".to_string()),
 		};
 		if a != b { same = false; }
-		res.push(digest(a.as_bytes())[..6].to_string());
+		if let Some(il) = caps.image_len { for c in copies.iter() { if il(&c.0) != c.1.len() { imglen_same = false; } } }
+		res.push(match raw { Some(r) => r, None => if a == "None" || a == "skip" { a } else { digest(a.as_bytes())[..6].to_string() } });
 	}
-	// fused: after the history, drain and keep asking
-	while it.next().is_some() {}
-	let fused = it.next().is_none() && it.next().is_none();
-	format!("ok n={} deque_same={} fused={} results=[{}]", n0, same as u8, fused as u8, res.join(","))
+	// fused: after the history, drain every live copy and keep asking
+	let ncopies = copies.len();
+	let mut fused = true;
+	for (mut it, mut dq) in copies {
+		loop { match it.next() { Some(x) => { if Some(f(&x)) != dq.pop_front() { same = false; } }, None => break } }
+		if !dq.is_empty() { same = false; }
+		fused &= it.next().is_none() && it.next().is_none();
+		if let Some(bk) = caps.back { fused &= bk(&mut it).is_none(); }
+		if let Some(ln) = caps.len { fused &= ln(&it) == 0; }
+		if let Some(il) = caps.image_len { if il(&it) != 0 { imglen_same = false; } }
+	}
+	let mut out = format!("ok n={} deque_same={} fused={}", n0, same as u8, fused as u8);
+	if caps.image_len.is_some() { out += &format!(" imglen_same={}", imglen_same as u8); }
+	if let Some(l) = layout_same { out += &format!(" layout_same={}", l as u8); }
+	if let Some(t) = caps.twin.as_ref() { out += &format!(" twin_same={}", t.get() as u8); }
+	if let Some(w) = want_n { out += &format!(" want_n_same={}", (w == n0) as u8); }
+	out + &format!(" copies={} ids={} results=[{}]", ncopies, ids, res.join(","))
 }
 
-/// exact-size double-ended iterators
-fn run_de<I: DoubleEndedIterator + ExactSizeIterator + Clone>(mut it: I, hist: &str) -> String where I::Item: Debug {
-	let mut dq = match items_of(&it) { Some(d) => d, None => return "toolong".to_string() };
-	let n0 = dq.len();
-	let mut res = Vec::new();
-	let mut same = true;
-	for h in hist.split(',') {
-		let (a, b) = match h {
-			"next" => (opt(it.next().map(|x| format!("{:?}", x))), opt(dq.pop_front())),
-			"back" => (opt(it.next_back().map(|x| format!("{:?}", x))), opt(dq.pop_back())),
-			"len" => (it.len().to_string(), dq.len().to_string()),
-			"count" => (it.clone().count().to_string(), dq.len().to_string()),
-			"hint" => (format!("{:?}", it.size_hint()), format!("{:?}", (dq.len(), Some(dq.len())))),
-			"clone" => { it = it.clone(); ("cloned".to_string(), "cloned".to_string()) },
-			_ if h.starts_with("nth:") => { let k = num(&h[4..]) as usize; let a = opt(it.nth(k).map(|x| format!("{:?}", x))); for _ in 0..std::cmp::min(k, dq.len()) { dq.pop_front(); } (a, opt(dq.pop_front())) },
-			_ => ("skip".to_string(), "skip".to_string()),
-		};
-		if a != b { same = false; }
-		res.push(digest(a.as_bytes())[..6].to_string());
+/// the iterator of the WRAPPER beside the iterator of the format-specific view inside it: every call goes to both,
+/// the answers (canonical items, RAW size hints, counts) must be equal; the item handed on is the wrapper's
+struct Pair<'g, W, S> { w: W, s: S, g: &'g Guarded, same: Rc<Cell<bool>> }
+impl<'g, W: Clone, S: Clone> Clone for Pair<'g, W, S> { fn clone(&self) -> Self { Pair { w: self.w.clone(), s: self.s.clone(), g: self.g, same: self.same.clone() } } }
+impl<'g, W: Iterator, S: Iterator> Pair<'g, W, S> where W::Item: Canon, S::Item: Canon {
+	fn both(&self, a: Option<W::Item>, b: Option<S::Item>) -> Option<String> {
+		let (a, b) = (a.map(|x| x.canon(self.g)), b.map(|x| x.canon(self.g)));
+		if a != b { self.same.set(false); }
+		a
 	}
-	while it.next().is_some() {}
-	let fused = it.next().is_none() && it.next_back().is_none() && it.len() == 0;
-	format!("ok n={} deque_same={} fused={} results=[{}]", n0, same as u8, fused as u8, res.join(","))
+}
+impl<'g, W: Iterator, S: Iterator> Iterator for Pair<'g, W, S> where W::Item: Canon, S::Item: Canon {
+	type Item = String;
+	fn next(&mut self) -> Option<String> { let (a, b) = (self.w.next(), self.s.next()); self.both(a, b) }
+	fn nth(&mut self, n: usize) -> Option<String> { let (a, b) = (self.w.nth(n), self.s.nth(n)); self.both(a, b) }
+	fn size_hint(&self) -> (usize, Option<usize>) { let (a, b) = (self.w.size_hint(), self.s.size_hint()); if a != b { self.same.set(false); } a }
+	fn count(self) -> usize { let (a, b) = (self.w.count(), self.s.count()); if a != b { self.same.set(false); } a }
+}
+fn run_pair<W: Iterator + Clone, S: Iterator + Clone>(g: &Guarded, w: W, s: S, hist: &str, want_n: Option<usize>) -> String where W::Item: Canon, S::Item: Canon {
+	let same = Rc::new(Cell::new(true));
+	let mut caps = fwd();
+	caps.twin = Some(same.clone());
+	run(Pair { w, s, g, same }, |x: &String| x.clone(), caps, hist, want_n)
+}
+/// both sides must fail alike before there is an iterator
+fn pair_err<A, B>(a: &pelite::Result<A>, b: &pelite::Result<B>) -> Option<String> {
+	match (a, b) {
+		(Ok(_), Ok(_)) => None,
+		(Err(x), Err(y)) if x == y => Some(format!("err {}", errname(*x))),
+		(x, y) => Some(format!("ok n=0 deque_same=1 fused=1 twin_same=0 wrapper={} specific={}", x.as_ref().err().map_or("Ok", |e| errname(*e)), y.as_ref().err().map_or("Ok", |e| errname(*e)))),
+	}
+}
+
+/// wrapper sources: `$w` is the wrapper, `$q` the format-specific view inside it
+macro_rules! with_wrap_pair {
+	($st:expr, $k:expr, $g:ident, $w:ident, $q:ident => $body:expr) => {{
+		match $st.img.as_ref() { None => "noimg".to_string(), Some($g) => {
+			macro_rules! arms { ($ctor:expr) => { match $ctor {
+				Err(e) => format!("noimg {}", errname(e)),
+				Ok($w) => match $w {
+					Wrap::T32($q) => { #[allow(unused_imports)] use pelite::pe32::{Pe, PeObject}; $body },
+					Wrap::T64($q) => { #[allow(unused_imports)] use pelite::pe64::{Pe, PeObject}; $body },
+				},
+			} } }
+			match $k { "wf" => arms!(pelite::PeFile::from_bytes($g.bytes())), "wv" => arms!(pelite::PeView::from_bytes($g.bytes())), _ => "bad-op".to_string() }
+		} }
+	}};
+}
+
+/// `res_all@0.2`: the path of entry indices from the root to the directory whose entries are iterated
+fn descend<'a>(root: pelite::resources::Directory<'a>, path: &str) -> Option<pelite::resources::Directory<'a>> {
+	let mut d = root;
+	if path.is_empty() { return Some(d); }
+	for t in path.split('.') {
+		match d.entries().nth(num(t) as usize)?.entry() { Ok(pelite::resources::Entry::Directory(sub)) => d = sub, _ => return None }
+	}
+	Some(d)
 }
 
 pub fn dispatch(st: &mut State, fam: &str, rest: &str) -> Option<String> {
 	if fam != "iter" { return None; }
 	let a: Vec<&str> = rest.split(' ').collect();
-	if a.len() != 3 { return Some("bad-op".to_string()); }
+	if a.len() < 3 { return Some("bad-op".to_string()); }
 	let (k, src, hist) = (a[0], a[1], a[2]);
-	Some(match src {
-		// through the format-agnostic wrappers (Wrap<I32, I64> only offers `next`)
-		"wimports" | "wdebug" => with_any!(st, k, g, p => { let _ = g; match src {
-			"wimports" => match p.imports() { Ok(i) => run_fwd(i.iter().map(|d| format!("{:?}", d)), hist), Err(e) => format!("err {}", errname(e)) },
-			_ => match p.debug() { Ok(i) => run_fwd(i.iter().map(|d| format!("{:?}", d)), hist), Err(e) => format!("err {}", errname(e)) },
-		} }),
-		_ => with_specific!(st, k, g, p => { let _ = g; match src {
-			"imports" => match p.imports() { Ok(i) => run_de(i.iter(), hist), Err(e) => format!("err {}", errname(e)) },
-			"debug" => match p.debug() { Ok(i) => run_de(i.iter(), hist), Err(e) => format!("err {}", errname(e)) },
-			"rich" => match p.rich_structure() { Ok(r) => run_de(r.records(), hist), Err(e) => format!("err {}", errname(e)) },
-			"relocs" => match p.base_relocs() { Ok(r) => run_fwd(r.iter_blocks(), hist), Err(e) => format!("err {}", errname(e)) },
-			"pogo" => match p.debug() { Ok(d) => match d.iter().filter_map(|dir| dir.entry().ok().and_then(|e| e.as_pgo())).next() { Some(pgo) => run_fwd(pgo.iter(), hist), None => "none".to_string() }, Err(e) => format!("err {}", errname(e)) },
-			"exports" | "exp_names" | "exp_indices" => match p.exports().and_then(|e| e.by()) { Ok(by) => match src {
-				"exports" => run_fwd(by.iter(), hist), "exp_names" => run_fwd(by.iter_names(), hist), _ => run_fwd(by.iter_name_indices(), hist) }, Err(e) => format!("err {}", errname(e)) },
-			"res_all" | "res_named" | "res_id" => match p.resources().and_then(|r| r.root()) { Ok(root) => match src {
-				"res_all" => run_de(root.entries(), hist), "res_named" => run_de(root.named_entries(), hist), _ => run_de(root.id_entries(), hist) }, Err(e) => format!("err {}", errname(e)) },
-			"iat" => match p.iat() { Ok(i) => run_de(i.iter(), hist), Err(e) => format!("err {}", errname(e)) },
-			"exc" => match p.exception() { Ok(x) => run_de(x.functions(), hist), Err(e) => format!("err {}", errname(e)) },
-			"sections" => run_de(p.section_headers().iter(), hist),
-			"strings" => match p.section_headers().iter().next().and_then(|s| p.get_section_bytes(s).ok()) { Some(b) => run_fwd(pelite::strings::Config::default().enumerate(0x1000, b), hist), None => "none".to_string() },
+	let want_n = a[3..].iter().find_map(|t| t.strip_prefix("want_n=")).map(|x| num(x) as usize);
+	let (src, arg) = match src.find('@') { Some(i) => (&src[..i], &src[i + 1..]), None => (src, "") };
+	let er = |e: pelite::Error| format!("err {}", errname(e));
+	Some(if src.starts_with('w') {
+		// the iterators the format-agnostic wrappers hand out (src/wrap/*.rs), each beside its format-specific twin
+		let idx = if arg.is_empty() { 0 } else { num(arg) as usize };
+		with_wrap_pair!(st, k, g, w, q => match src {
+			"wimports" | "wimports_into" => { let (a, b) = (w.imports(), q.imports()); match pair_err(&a, &b) { Some(e) => e, None => { let (a, b) = (a.unwrap(), b.unwrap());
+				if src == "wimports" { run_pair(g, a.iter(), b.iter(), hist, want_n) } else { run_pair(g, a.into_iter(), b.into_iter(), hist, want_n) } } } },
+			"wdebug" | "wdebug_into" => { let (a, b) = (w.debug(), q.debug()); match pair_err(&a, &b) { Some(e) => e, None => { let (a, b) = (a.unwrap(), b.unwrap());
+				if src == "wdebug" { run_pair(g, a.iter(), b.iter(), hist, want_n) } else { run_pair(g, a.into_iter(), b.into_iter(), hist, want_n) } } } },
+			"wiat" => { let (a, b) = (w.iat(), q.iat()); match pair_err(&a, &b) { Some(e) => e, None => run_pair(g, a.unwrap().iter(), b.unwrap().iter(), hist, want_n) } },
+			"wint" | "wdesc_iat" => { let (a, b) = (w.imports(), q.imports()); match pair_err(&a, &b) { Some(e) => e, None => match (a.unwrap().iter().nth(idx), b.unwrap().iter().nth(idx)) {
+				(Some(dw), Some(ds)) => if src == "wint" { let (a, b) = (dw.int(), ds.int()); match pair_err(&a, &b) { Some(e) => e, None => run_pair(g, a.unwrap(), b.unwrap(), hist, want_n) } }
+					else { let (a, b) = (dw.iat(), ds.iat()); match pair_err(&a, &b) { Some(e) => e, None => run_pair(g, a.unwrap(), b.unwrap(), hist, want_n) } },
+				(None, None) => "none".to_string(),
+				_ => "ok n=0 deque_same=1 fused=1 twin_same=0 descriptor-count".to_string(),
+			} } },
+			"wexports" | "wexp_names" | "wexp_indices" => { let (a, b) = (w.exports().and_then(|e| e.by()), q.exports().and_then(|e| e.by())); match pair_err(&a, &b) { Some(e) => e, None => { let (a, b) = (a.unwrap(), b.unwrap()); match src {
+				"wexports" => run_pair(g, a.iter(), b.iter(), hist, want_n), "wexp_names" => run_pair(g, a.iter_names(), b.iter_names(), hist, want_n), _ => run_pair(g, a.iter_name_indices(), b.iter_name_indices(), hist, want_n) } } } },
 			_ => "bad-op".to_string(),
-		} }),
+		})
+	} else {
+		with_specific!(st, k, g, p => { match src {
+			"imports" | "imports_into" => match p.imports() { Ok(i) => run(if src == "imports" { i.iter() } else { i.into_iter() }, |x| x.canon(g), de_img(), hist, want_n), Err(e) => er(e) },
+			"debug" | "debug_into" => match p.debug() { Ok(i) => run(if src == "debug" { i.iter() } else { i.into_iter() }, |x| x.canon(g), de_img(), hist, want_n), Err(e) => er(e) },
+			"int" | "desc_iat" => match p.imports() { Ok(i) => match i.iter().nth(if arg.is_empty() { 0 } else { num(arg) as usize }) {
+				Some(d) => if src == "int" { match d.int() { Ok(it) => run(it, |x| x.canon(g), de(), hist, want_n), Err(e) => er(e) } } else { match d.iat() { Ok(it) => run(it, |x| x.canon(g), de(), hist, want_n), Err(e) => er(e) } },
+				None => "none".to_string() }, Err(e) => er(e) },
+			"rich" => match p.rich_structure() { Ok(r) => run(r.records(), |x| x.canon(g), de(), hist, want_n), Err(e) => er(e) },
+			"relocs" => match p.base_relocs() { Ok(r) => run(r.iter_blocks(), |x| x.canon(g), fwd(), hist, want_n), Err(e) => er(e) },
+			"pogo" | "pogo_into" => match p.debug() { Ok(d) => match d.iter().filter_map(|dir| dir.entry().ok().and_then(|e| e.as_pgo())).next() {
+				Some(pgo) => run(if src == "pogo" { pgo.iter() } else { pgo.into_iter() }, |x| x.canon(g), fwd(), hist, want_n), None => "none".to_string() }, Err(e) => er(e) },
+			"exports" | "exp_names" | "exp_indices" => match p.exports().and_then(|e| e.by()) { Ok(by) => match src {
+				"exports" => run(by.iter(), |x| x.canon(g), fwd(), hist, want_n), "exp_names" => run(by.iter_names(), |x| x.canon(g), fwd(), hist, want_n), _ => run(by.iter_name_indices(), |x| x.canon(g), fwd(), hist, want_n) }, Err(e) => er(e) },
+			"res_all" | "res_named" | "res_id" => match p.resources().and_then(|r| r.root()) { Ok(root) => match descend(root, arg) {
+				Some(d) => {
+					// the records the header announces: NumberOfNamedEntries named ones, then NumberOfIdEntries id ones, 8 bytes each, behind the 16-byte header
+					let im = d.image();
+					let (nn, ni) = (im.NumberOfNamedEntries as usize, im.NumberOfIdEntries as usize);
+					let at = |i: usize| g.rf((im as *const _ as *const u8).wrapping_add(16 + 8 * i), 8);
+					match src {
+						"res_all" => { let mut c = de(); c.layout = Some((0..nn + ni).map(at).collect()); run(d.entries(), |x| x.canon(g), c, hist, want_n) },
+						"res_named" => { let mut c = de(); c.layout = Some((0..nn).map(at).collect()); run(d.named_entries(), |x| x.canon(g), c, hist, want_n) },
+						_ => { let mut c = de(); c.layout = Some((nn..nn + ni).map(at).collect()); run(d.id_entries(), |x| x.canon(g), c, hist, want_n) },
+					}
+				},
+				None => "none".to_string() }, Err(e) => er(e) },
+			"iat" => match p.iat() { Ok(i) => run(i.iter(), |x| x.canon(g), de(), hist, want_n), Err(e) => er(e) },
+			"exc" => match p.exception() { Ok(x) => run(x.functions(), |x| x.canon(g), de(), hist, want_n), Err(e) => er(e) },
+			"sections" | "sections_into" => {
+				let sh = p.section_headers();
+				let mut c = de();
+				c.layout = Some((0..sh.image().len()).map(|i| g.rf((sh.image().as_ptr() as *const u8).wrapping_add(40 * i), 40)).collect());
+				run(if src == "sections" { sh.iter() } else { sh.into_iter() }, |x| x.canon(g), c, hist, want_n)
+			},
+			"strings" => match p.section_headers().iter().next().and_then(|s| p.get_section_bytes(s).ok()) { Some(b) => run(pelite::strings::Config::default().enumerate(0x1000, b), |x| format!("{:?}", x), fwd(), hist, want_n), None => "none".to_string() },
+			_ => "bad-op".to_string(),
+		} })
 	})
 }
